@@ -544,9 +544,9 @@ class IkeSa(object):
         return response
 
     def _generate_ike_sa_negotiation_request(self):
-        # create the Payload SA
-        self.chosen_proposal = self.configuration.proposal
-        self.chosen_proposal.spi = self.my_spi
+        # create the Payload SA (on a copy of the configured proposal, which is shared by every IKE_SA of the connection)
+        self.chosen_proposal = Proposal(self.configuration.proposal.num, self.configuration.proposal.protocol_id,
+                                        self.my_spi, list(self.configuration.proposal.transforms))
         payload_sa = PayloadSA([self.chosen_proposal])
 
         # generate payload NONCE
@@ -621,9 +621,11 @@ class IkeSa(object):
         result.append(PayloadTSi(child_sa.tsi))
         result.append(PayloadTSr(child_sa.tsr))
 
-        # generate Payload SA
-        child_sa.proposal.spi = child_sa.inbound_spi
-        result.append(PayloadSA([child_sa.proposal]))
+        # generate Payload SA. The proposal belongs to the configuration and is shared by every negotiation of that
+        # "protect" entry, so the SPI goes into a copy (a request that is generated again later must still carry it)
+        proposal = Proposal(child_sa.proposal.num, child_sa.proposal.protocol_id, child_sa.inbound_spi,
+                            list(child_sa.proposal.transforms))
+        result.append(PayloadSA([proposal]))
 
         # generate Payload KE (if required)
         try:
